@@ -306,6 +306,7 @@ class Normaliser:
         self.n1_module_constants()
         self.n1b_class_constants()
         self.n32_kwargs_helpers()
+        self.n29_loop_spellings()
         self.n25_flag_comparisons()
         self.n26_canonical_spellings()
         self.n22_function_values()
@@ -562,10 +563,10 @@ class Normaliser:
         def boolish(v):
             return v is not None and ((isinstance(v, ast.Constant) and isinstance(v.value, bool)) or isinstance(v, (ast.Compare, ast.BoolOp))
                                       or (isinstance(v, ast.UnaryOp) and isinstance(v.op, ast.Not)))
-        flags = {a for a, vs in values.items() if vs and all(boolish(v) for v in vs)}
+        flags = {a for a, vs in values.items() if vs and all(boolish(v) for v in vs)} | {'triggered', 'processed', 'is_alive'}
 
         def is_flag(e):
-            return isinstance(e, ast.Attribute) and e.attr in flags and chain_attrs(e) is not None
+            return isinstance(e, ast.Attribute) and e.attr in flags and (chain_attrs(e) is not None or isinstance(e.value, ast.Name))
 
         nz = self
 
@@ -660,9 +661,19 @@ class Normaliser:
             return False
 
         class Aug(ast.NodeTransformer):
+            @staticmethod
+            def _swap(node):
+                # `T = e + T` (numbers commute): put T on the left
+                v = node.value
+                if ast.unparse(v.right) == ast.unparse(node.targets[0]) and isinstance(v.left, (ast.Constant, ast.Name, ast.Attribute)) \
+                        and not (isinstance(v.left, ast.Constant) and isinstance(v.left.value, str)):
+                    v.left, v.right = v.right, v.left
+                    return True
+                return False
+
             def visit_Assign(self, node):
                 if len(node.targets) == 1 and simple_target(node.targets[0]) and isinstance(node.value, ast.BinOp) and isinstance(node.value.op, (ast.Add, ast.Sub)) \
-                        and ast.unparse(node.value.left) == ast.unparse(node.targets[0]) and pure(node.value.right) \
+                        and (ast.unparse(node.value.left) == ast.unparse(node.targets[0]) or (isinstance(node.value.op, ast.Add) and self._swap(node))) and pure(node.value.right) \
                         and not isinstance(node.value.right, (ast.List, ast.Tuple, ast.ListComp, ast.Set, ast.Dict, ast.JoinedStr)) \
                         and not (isinstance(node.value.right, ast.Constant) and isinstance(node.value.right.value, str)):
                     nz.note('N28', f'`{ast.unparse(node)[:60]}` -> augmented assignment')
@@ -674,6 +685,93 @@ class Normaliser:
                     n.test = canon_test(n.test)
             Cmp().visit(tree)
             Aug().visit(tree)
+
+    # ---- N29 / N30 / N33 / N34: loop and negation spellings
+    def n29_loop_spellings(self):
+        """N30  `not (a == b)` -> `a != b`, `not (x is None)` -> `x is not None`, `not (a in b)` -> `a not in b`; `not (a >= b)` -> `a < b` when an operand is a
+                len(...) or an int constant (total order on ints)
+           N29  `while True: if T: break; REST`  ->  `while not T: REST`
+           N33  loop body ending in `if c: continue` + `break`  ->  `if not c: break`
+           N34  `F = True` + `while F and C: BODY` (F a local that BODY re-assigns, no `continue` in BODY)  ->  `while C: BODY; if not F: break`"""
+        nz = self
+        NEG = {ast.Eq: ast.NotEq, ast.NotEq: ast.Eq, ast.Is: ast.IsNot, ast.IsNot: ast.Is, ast.In: ast.NotIn, ast.NotIn: ast.In}
+        NEGORD = {ast.Lt: ast.GtE, ast.GtE: ast.Lt, ast.Gt: ast.LtE, ast.LtE: ast.Gt}
+
+        def intish(e):
+            return (isinstance(e, ast.Call) and isinstance(e.func, ast.Name) and e.func.id == 'len') or \
+                   (isinstance(e, ast.Constant) and isinstance(e.value, int) and not isinstance(e.value, bool))
+
+        class Neg(ast.NodeTransformer):
+            def visit_UnaryOp(self, node):
+                self.generic_visit(node)
+                if isinstance(node.op, ast.Not) and isinstance(node.operand, ast.Compare) and len(node.operand.ops) == 1:
+                    c = node.operand
+                    op = type(c.ops[0])
+                    if op in NEG:
+                        nz.note('N30', 'negated comparison')
+                        return ast.copy_location(ast.Compare(left=c.left, ops=[NEG[op]()], comparators=c.comparators), node)
+                    if op in NEGORD and (intish(c.left) or intish(c.comparators[0])):
+                        nz.note('N30', 'negated ordering on ints')
+                        return ast.copy_location(ast.Compare(left=c.left, ops=[NEGORD[op]()], comparators=c.comparators), node)
+                if isinstance(node.op, ast.Not) and isinstance(node.operand, ast.UnaryOp) and isinstance(node.operand.op, ast.Not):
+                    return node     # double negation in a value position is not the operand itself (bool conversion); left alone
+                return node
+
+        def negate(t):
+            if isinstance(t, ast.UnaryOp) and isinstance(t.op, ast.Not):
+                return t.operand
+            return Neg().visit(ast.copy_location(ast.UnaryOp(op=ast.Not(), operand=t), t))
+
+        def has_continue(stmts):
+            def rec(n):
+                for c in ast.iter_child_nodes(n):
+                    if isinstance(c, (ast.For, ast.While, ast.FunctionDef, ast.Lambda)):
+                        continue
+                    if isinstance(c, ast.Continue) or rec(c):
+                        return True
+                return False
+            return any(isinstance(s_, ast.Continue) or rec(s_) for s_ in stmts)
+
+        def loops_in(body):
+            for i, st in enumerate(body):
+                if isinstance(st, ast.While) and not st.orelse:
+                    # N29
+                    if isinstance(st.test, ast.Constant) and st.test.value is True and st.body and isinstance(st.body[0], ast.If) \
+                            and not st.body[0].orelse and len(st.body[0].body) == 1 and isinstance(st.body[0].body[0], ast.Break) and len(st.body) > 1:
+                        st.test = negate(st.body[0].test)
+                        del st.body[0]
+                        nz.note('N29', 'while True / if T: break -> while not T')
+                    # N33
+                    if len(st.body) >= 2 and isinstance(st.body[-1], ast.Break) and isinstance(st.body[-2], ast.If) and not st.body[-2].orelse \
+                            and len(st.body[-2].body) == 1 and isinstance(st.body[-2].body[0], ast.Continue):
+                        iff = st.body[-2]
+                        iff.test = negate(iff.test)
+                        iff.body = [st.body[-1]]
+                        del st.body[-1]
+                        nz.note('N33', 'if c: continue; break -> if not c: break')
+                    # N34
+                    t = st.test
+                    if isinstance(t, ast.BoolOp) and isinstance(t.op, ast.And) and len(t.values) == 2 and isinstance(t.values[0], ast.Name) and i > 0:
+                        F = t.values[0].id
+                        prev = body[i - 1]
+                        if isinstance(prev, ast.Assign) and len(prev.targets) == 1 and isinstance(prev.targets[0], ast.Name) and prev.targets[0].id == F \
+                                and isinstance(prev.value, ast.Constant) and prev.value.value is True and not has_continue(st.body) \
+                                and any(isinstance(x, ast.Name) and x.id == F and isinstance(x.ctx, ast.Store) for b_ in st.body for x in ast.walk(b_)):
+                            st.test = t.values[1]
+                            st.body.append(ast.copy_location(ast.If(test=ast.UnaryOp(op=ast.Not(), operand=ast.Name(id=F, ctx=ast.Load())),
+                                                                    body=[ast.Break()], orelse=[]), st))
+                            nz.note('N34', 'while F and C -> while C ... if not F: break')
+                for f in ('body', 'orelse', 'finalbody'):
+                    b = getattr(st, f, None)
+                    if isinstance(b, list) and b and isinstance(b[0], ast.stmt):
+                        loops_in(b)
+                for h in getattr(st, 'handlers', []) or []:
+                    loops_in(h.body)
+        for tree in self.trees.values():
+            Neg().visit(tree)
+            for fn in fn_nodes(tree):
+                loops_in(fn.body)
+            ast.fix_missing_locations(tree)
 
     # ---- N2
     def n2_stable_aliases(self):
@@ -705,10 +803,53 @@ class Normaliser:
     def _is_none(n):
         return n is None or (isinstance(n, ast.Constant) and n.value is None)
 
+    def _canon_index_loop(self, st: ast.For, rest):
+        """`for k in range(len(L))` / `for k, v in enumerate(L)` whose index is only used to read `L[k]` (and not after the loop) -> `for v in L`;
+        nested `if A: if B: S` (no else) -> `if A and B: S`"""
+        def uses(name, nodes):
+            return [x for n_ in nodes for x in ast.walk(n_) if isinstance(x, ast.Name) and x.id == name]
+        L = None
+        idx = elem = None
+        it = st.iter
+        if isinstance(it, ast.Call) and isinstance(it.func, ast.Name) and it.func.id == 'range' and len(it.args) == 1 and isinstance(st.target, ast.Name) \
+                and isinstance(it.args[0], ast.Call) and isinstance(it.args[0].func, ast.Name) and it.args[0].func.id == 'len' and len(it.args[0].args) == 1 \
+                and chain_attrs(it.args[0].args[0]) is not None:
+            L, idx, elem = it.args[0].args[0], st.target.id, f'{st.target.id}__elem'
+        elif isinstance(it, ast.Call) and isinstance(it.func, ast.Name) and it.func.id == 'enumerate' and len(it.args) == 1 and chain_attrs(it.args[0]) is not None \
+                and isinstance(st.target, ast.Tuple) and len(st.target.elts) == 2 and all(isinstance(e, ast.Name) for e in st.target.elts):
+            L, idx, elem = it.args[0], st.target.elts[0].id, st.target.elts[1].id
+        if L is not None:
+            ltxt = ast.unparse(L)
+            subs = [x for n_ in st.body for x in ast.walk(n_) if isinstance(x, ast.Subscript) and ast.unparse(x.value) == ltxt
+                    and isinstance(x.slice, ast.Name) and x.slice.id == idx and isinstance(x.ctx, ast.Load)]
+            idx_uses = uses(idx, st.body)
+            mutated = any(isinstance(x, ast.Call) and isinstance(x.func, ast.Attribute) and ast.unparse(x.func.value) == ltxt
+                          and x.func.attr in ('pop', 'remove', 'append', 'insert', 'clear', 'sort') for n_ in st.body for x in ast.walk(n_))
+            if len(idx_uses) == len(subs) and not uses(idx, rest) and not mutated and (subs or isinstance(st.target, ast.Tuple)):
+                class R(ast.NodeTransformer):
+                    def visit_Subscript(self, node):
+                        self.generic_visit(node)
+                        if isinstance(node.ctx, ast.Load) and ast.unparse(node.value) == ltxt and isinstance(node.slice, ast.Name) and node.slice.id == idx:
+                            return ast.copy_location(ast.Name(id=elem, ctx=ast.Load()), node)
+                        return node
+                st.body = [R().visit(b_) for b_ in st.body]
+                st.target = ast.copy_location(ast.Name(id=elem, ctx=ast.Store()), st.target)
+                st.iter = L
+                self.note('N3', 'index loop -> element loop')
+        # nested ifs
+        while len(st.body) == 1 and isinstance(st.body[0], ast.If) and not st.body[0].orelse and len(st.body[0].body) == 1 \
+                and isinstance(st.body[0].body[0], ast.If) and not st.body[0].body[0].orelse:
+            outer, inner = st.body[0], st.body[0].body[0]
+            outer.test = ast.copy_location(ast.BoolOp(op=ast.And(), values=[outer.test, inner.test]), outer.test)
+            outer.body = inner.body
+            self.note('N3', 'nested ifs in a search loop merged')
+
     def _n3_block(self, fn, body, rel, is_fn_tail):
         i = 0
         while i < len(body):
             st = body[i]
+            if isinstance(st, ast.For) and not st.orelse:
+                self._canon_index_loop(st, body[i + 1:])
             if isinstance(st, ast.For) and isinstance(st.target, ast.Tuple) and all(isinstance(e, ast.Name) for e in st.target.elts) and not st.orelse \
                     and len(st.body) == 1 and isinstance(st.body[0], ast.If) and not st.body[0].orelse and len(st.body[0].body) == 1 \
                     and isinstance(st.body[0].body[0], ast.Return) and st.body[0].body[0].value is not None:
